@@ -567,7 +567,6 @@ func runOnce(c Case) (res stats.Result) {
 
 	kst := make([]*kernelState, len(c.Kernels))
 	byPacket := map[*kernels.HsaKernelDispatchPacket]int{}
-	byReqID := map[string]int{}
 	for i, k := range c.Kernels {
 		st := &kernelState{}
 		st.co = &insts.KernelCodeObject{
@@ -647,7 +646,6 @@ func runOnce(c Case) (res stats.Result) {
 					}
 				}
 				kst[next].req = req
-				byReqID[req.ID] = next
 				if err := drvPort.Send(req); err != nil {
 					panic("harness: send failed after CanSend")
 				}
@@ -1285,26 +1283,41 @@ func TestRegress(t *testing.T) {
 		if !strings.HasSuffix(f.Name(), ".json") {
 			continue
 		}
-		var c Case
 		os.Setenv("VERIF_REPLAY", "regress/"+f.Name())
-		if _, err := stats.LoadReplay(&c); err != nil {
+		c, r, err := loadAndRun()
+		os.Unsetenv("VERIF_REPLAY")
+		if err != nil {
 			t.Fatalf("%s: %v", f.Name(), err)
 		}
-		os.Unsetenv("VERIF_REPLAY")
-		r := RunCase(c)
 		r.Labels = append(r.Labels, "regress:"+f.Name())
 		stats.Record(t, c, r)
 	}
 }
 
+// loadAndRun runs the case named by VERIF_REPLAY with the case type of its
+// stage.
+func loadAndRun() (c any, r stats.Result, err error) {
+	if stats.ReplayStage() == "e2e" {
+		var ec E2ECase
+		if _, err = stats.LoadReplay(&ec); err != nil {
+			return nil, r, err
+		}
+		return ec, RunE2ECase(ec), nil
+	}
+	var cc Case
+	if _, err = stats.LoadReplay(&cc); err != nil {
+		return nil, r, err
+	}
+	return cc, RunCase(cc), nil
+}
+
 func TestReplay(t *testing.T) {
-	var c Case
-	ok, err := stats.LoadReplay(&c)
-	if !ok {
+	if os.Getenv("VERIF_REPLAY") == "" {
 		t.Skip("no VERIF_REPLAY")
 	}
+	c, r, err := loadAndRun()
 	if err != nil {
 		t.Fatal(err)
 	}
-	stats.Record(t, c, RunCase(c))
+	stats.Record(t, c, r)
 }
